@@ -20,7 +20,7 @@ RULE = ('valid confirmed requests of every supported service (ReadProperty, Writ
         'families (garbage of every layer incl. address-field shapes and network-layer messages interleaved with valid requests, '
         'histories of valid traffic with time passing, routed requests through alternating routers with a planted I-Am-Router, '
         'small max-APDU codes with good/bad segment acks and client aborts, segmented requests in/out of order with duplicates, '
-        'routed requests from originators with MAC lengths 1..8, 16, 18, 255 (valid and mutated, behind remote-station and global-broadcast DADRs), a service that never responds with duplicates / client aborts / time passing, a device with communication disabled): every injected frame is predicted from its raw octets by DeviceRx.device_rx '
+        'abandoned segmented requests followed by the time-outs and the same invoke ID again, same-moment batches [requests that defer follow-up work, a garbage item] in every order handed over as deferred calls and run by bacpypes.core.run_once, routed requests from originators with MAC lengths 1..8, 16, 18, 255 (valid and mutated, behind remote-station and global-broadcast DADRs), a service that never responds with duplicates / client aborts / time passing, a device with communication disabled): every injected frame is predicted from its raw octets by DeviceRx.device_rx '
         '(frames sent with destination, route, PDU type, invoke ID, reason / error class+code, segmentation; server '
         'transactions, their armed timers, orphan timers after each frame and at quiescence) and compared with the stack.')
 TRUSTED = ['model coq/theories/Asap.v + AsapCodec.v = service lookup (registry translated from apdu.py), parameter decoding by the C03 codec model, dispatch and error mapping of ApplicationServiceAccessPoint.indication and Application.indication; '
@@ -551,6 +551,114 @@ def direct(rng, tier, focus=()):
                 inv += 1
                 nontriv.add(('routed-maclen', L, f))
     samples.append({'direct': 'routed requests, source MAC lengths 1..8, 16, 18, 255', 'example': C.npdu_routed(pool[0][1], 5, bytes(range(1, 8))).hex()})
+
+    # abandoned segmented requests: the first segment(s) of a segmented confirmed request arrive (SEG=1, MOR=1, sequence
+    # numbers from 0) and then the client falls silent.  After the segment time-out and every retry have passed the device
+    # keeps no transaction or timer, and a valid request under the same invoke ID from the same station is answered normally
+    def seg_frames(apdu, inv, nseg, win):
+        svc, params = apdu[3], bytes(apdu[4:])
+        step = max(1, len(params) // nseg)
+        chunks = [params[i * step:(i + 1) * step] for i in range(nseg - 1)] + [params[(nseg - 1) * step:]]
+        return [C.npdu(bytes([0x08 | (0x04 if k < nseg - 1 else 0) | 0x02, apdu[1], inv, k, win, svc]) + c) for k, c in enumerate(chunks)]
+    segable = [(name, apdu) for name, apdu in pool if len(apdu) >= 8]
+    for _ in range(300 if tier == 'thorough' else 60):
+        n += 1
+        w = C.Device()
+        name, apdu = rng.choice(segable)
+        inv = rng.choice([33, 90, 200])
+        nseg = rng.choice([2, 3, 3])
+        frames = seg_frames(apdu, inv, nseg, rng.choice([1, 2, 4]))
+        sent = frames[:1] if rng.random() < 0.7 else frames[:nseg - 1]
+        if rng.random() < 0.2:
+            sent = sent + sent[-1:]                 # the last one that made it, twice
+        for f in sent:
+            w.inject([f])
+            w.settle(rng.choice([0.0, 0.0, 1.0, 4.0]))
+        errs = w.settle(600.0)
+        res = ssm_residue(w)
+        if res:
+            failures.append({'kind': 'residue-after-abandoned-segmented-request', 'request': name, 'frames': [f.hex() for f in sent],
+                             'residue': res, 'exceptions': [repr(e)[:120] for e in errs[:3]]})
+        again = bytearray(pool[0][1]); again[2] = inv
+        w.raw.frames.clear()
+        w.inject([C.npdu(bytes(again))])
+        w.settle(300.0)
+        got = canon_reply_frames(w.replies(), inv)
+        if got != [[3, 0, 0]]:
+            failures.append({'kind': 'same-invoke-id-unusable-after-abandoned-segmented-request', 'request': name,
+                             'frames': [f.hex() for f in sent] + [C.npdu(bytes(again)).hex()], 'replies': got})
+        nontriv.add(('abandoned', tuple(sent)))
+    samples.append({'direct': 'abandoned segmented request, time-outs, same invoke ID again', 'example': seg_frames(pool[0][1], 33, 2, 2)[0].hex()})
+
+    # traffic queued at the same moment, through the library's own scheduler pass (bacpypes.core.run_once; the virtual LAN's
+    # clock elsewhere in this check re-implements that loop): datagrams reach the stack as deferred calls — as
+    # UDPDirector.handle_read hands them over — several in one pass: valid requests, some of which defer follow-up work
+    # (SubscribeCOV: the initial notification; WriteProperty on a monitored object: the COV notification), and an item that is
+    # garbage (most choices raise inside the stack).  Every order.  Oracle: what the device puts on the LAN — replies AND
+    # follow-up traffic — is what it puts there when the garbage item is absent.
+    import itertools
+    import bacpypes.core as _core
+    from bacpypes.pdu import PDU as _PDU, Address as _Address
+
+    def run_real(w, seconds):
+        target = w.clock.now[0] + seconds
+        while True:
+            for _ in range(200):
+                _core.run_once()
+                nd = w.clock.next_due()
+                if not _core.deferredFns and (nd is None or nd > w.clock.now[0]):
+                    break
+            else:
+                raise RuntimeError('core.run_once does not settle')
+            nd = w.clock.next_due()
+            if nd is None or nd > target:
+                return
+            w.clock.now[0] = max(w.clock.now[0], nd)
+
+    def batch_world(items):
+        w = C.Device()
+        run_real(w, 0.0)
+        w.raw.frames.clear(); w.raw2.frames.clear()
+        for src, octets in items:
+            _core.deferred(w.dev.node.response, _PDU(bytes(octets), source=_Address(src), destination=_Address(C.DEV_ADDR)))
+        run_real(w, 300.0)
+        sent = sorted((dst, data.hex()) for node in (w.raw, w.raw2) for s_, dst, data in node.frames if s_ == str(C.DEV_ADDR))
+        return w, sent
+
+    byname = dict(pool)
+
+    def valid_item(kind, inv, src):
+        a = bytearray(byname[kind]); a[2] = inv
+        return (src, C.npdu(bytes(a)))
+    raising = [bytes([0x01]), bytes([0x01, 0x04]), bytes([0x01, 0x04, 0x00]), bytes([0x01, 0x04, 0x00, 0x05, 0x21]), bytes([0x01, 0x20, 0x00]),
+               bytes([0x01, 0x08, 0xff, 0xff, 0x01, 0x01, 0x10, 0x08]), bytes([0x01, 0x04, 0xf0, 0x00]), bytes([0x01, 0x80]), b'']
+    for _ in range(240 if tier == 'thorough' else 48):
+        n += 1
+        kinds = rng.sample(['SubscribeCOV', 'WriteProperty', 'ReadProperty', 'ReadPropertyMultiple', 'SubscribeCOV-cancel'], rng.randrange(1, 4))
+        if _ % 2 == 0 and 'SubscribeCOV' not in kinds:
+            kinds[0] = 'SubscribeCOV'
+        valid = [valid_item(k, 100 + i, rng.choice([C.RAW_ADDR, C.RAW_ADDR, C.RAW2_ADDR])) for i, k in enumerate(kinds)]
+        g = rng.choice(raising) if rng.random() < 0.8 else bytes(rng.randrange(256) for _ in range(rng.randrange(0, 8)))
+        g = (rng.choice([C.RAW_ADDR, C.RAW2_ADDR]), _avoid_ids(g))
+        orders = list(itertools.permutations(range(len(valid))))
+        rng.shuffle(orders)
+        for order in orders[:2]:
+            base = [valid[i] for i in order]
+            w0, want = batch_world(base)
+            for pos in range(len(base) + 1):
+                batch = base[:pos] + [g] + base[pos:]
+                w1, got = batch_world(batch)
+                if got != want:
+                    missing = [x for x in want if x not in got]
+                    extra = [x for x in got if x not in want]
+                    failures.append({'kind': 'same-moment-batch-not-processed-as-without-the-garbage-item',
+                                     'batch': [(s_, o.hex()) for s_, o in batch], 'garbage_position': pos, 'requests': [kinds[i] for i in order],
+                                     'frames_missing': missing[:6], 'frames_not_expected': extra[:6]})
+                    break
+                if ssm_residue(w1):
+                    failures.append({'kind': 'residue-after-same-moment-batch', 'batch': [(s_, o.hex()) for s_, o in batch], 'residue': ssm_residue(w1)})
+            nontriv.add(('batch', tuple(base), g))
+    samples.append({'direct': 'same-moment batches through bacpypes.core.run_once', 'example': ['SubscribeCOV', 'garbage 01', 'ReadProperty']})
     return failures, {'evaluations': n, 'distinct_nontrivial': len(nontriv), 'samples': samples, 'device_level_notes': dict(DEV_STATS)}
 
 
@@ -590,6 +698,8 @@ def replay(payload):
     if 'apdu' in f:
         w, errs = run_world([bytes.fromhex(f['apdu'])])
         print('replies on the LAN:', canon_reply_frames(w.replies(), INVOKE), 'residue:', ssm_residue(w), 'exceptions:', errs[:3])
+    if 'batch' in f:
+        print('same-moment batch (deferred calls, bacpypes.core.run_once):', f['batch'], 'missing:', f.get('frames_missing'), 'not expected:', f.get('frames_not_expected'))
     if 'frames' in f:
         w = C.Device(); w.inject([bytes.fromhex(x) for x in f['frames']]); errs = w.settle(300.0)
         print('replies:', [(t, i) for t, i, _ in w.replies()], 'residue:', ssm_residue(w), 'exceptions:', errs[:3])
